@@ -16,7 +16,8 @@ pub fn run(ctx: &mut Ctx) {
     for i in 0..n {
         let valid = ctx.rng.chance(1, 2);
         let (k, r) = if ctx.rng.chance(4, 5) {
-            let (_, k, r) = gen_counts(&mut ctx.rng, 32, &["default"]);
+            let mw = *ctx.rng.pick(&[32usize, 32, 64, 128]);
+            let (_, k, r) = gen_counts(&mut ctx.rng, mw, &["default"]);
             (k, r)
         } else {
             (ctx.rng.range(0, 4), ctx.rng.range(0, 4))
